@@ -280,6 +280,11 @@ def gamut_and_jsd(seed):
             sim = dreye.compute_jensen_shannon_similarity(np.array(P, float), np.array(Q, float))
             if abs(sim - (1 - v)) > 1e-12:
                 bad.append(("C18.jsd-similarity", dict(kind=kind), 1 - v, float(sim)))
+            # the same distributions in a tiny absolute unit (spectra in W/m^2/nm): normalisation is exact at every scale
+            vt = dreye.compute_jensen_shannon_divergence(np.array(P, float) * 2.0 ** -40, np.array(Q, float) * 12.0)
+            vt2 = dreye.compute_jensen_shannon_divergence(np.array(P, float), np.array(Q, float) * 2.0 ** -50)
+            if abs(vt - v) > 1e-9 or abs(vt2 - v) > 1e-9:
+                bad.append(("C18.jsd-value", dict(kind=kind, representation="tiny absolute unit"), float(v), [float(vt), float(vt2)]))
             events.append(dict(ev="jsd", P=P, Q=Q, S=SJ, v=int(round(v * SJ)), vs=int(round(vs * SJ)), vn=int(round(vn * SJ)), meta=dict(kind=kind, jsd=True)))
         except Exception as ex:
             bad.append(("C18.no-error", dict(exc=type(ex).__name__, op="jsd", kind=kind), None, repr(ex)[:200]))
